@@ -291,6 +291,45 @@ def r4_rewriting(ctx):
     ctx.ob("R17.4", "build_forward_request:terminator", okt, "", "the header block is closed with an empty line" if okt else "no terminating CRLF is appended")
 
 
+def r9_host_field_name_any_case(ctx):
+    """header field names are case-insensitive (RFC 7230 3.2): the place that takes the destination from the Host line and the
+    place that replaces the Host line recognise it in any spelling (`Host:`, `host:`, `HOST:`) — and so agree with each other"""
+    d = ctx.body("R17.9", HP + "determine_target")
+    b = ctx.body("R17.9", HP + "build_forward_request")
+    if d is None or b is None:
+        return
+    def recognisers(body):
+        o = ctx.origins(body)
+        sens, insens = [], []
+        for c in body.calls():
+            last = (c.norm or "").split("::")[-1]
+            if last in ("strip_prefix", "starts_with") and len(c.args) > 1:
+                lit = fmt(o.of_operand(c.args[1]))
+                if "host:" in lit.lower():
+                    recv = o.of_operand(c.args[0])
+                    folded = any(isinstance(s_, tuple) and s_ and s_[0] == "call" and s_[1].split("::")[-1] in ("to_ascii_lowercase", "to_lowercase", "to_ascii_uppercase", "to_uppercase") for s_ in subterms(recv))
+                    if not folded:
+                        for s_ in subterms(recv):
+                            if isinstance(s_, tuple) and s_ and s_[0] == "var" and len(s_) > 2:
+                                folded = folded or any(isinstance(x, tuple) and x and x[0] == "call" and x[1].split("::")[-1] in ("to_ascii_lowercase", "to_lowercase") for x in subterms(o.init_of(s_[2])))
+                    (insens if folded else sens).append(c)
+            if last == "eq_ignore_ascii_case" and any("host" in fmt(o.of_operand(a)).lower() for a in c.args):
+                insens.append(c)
+        return sens, insens
+    ds, di = recognisers(d)
+    bs, bi_ = recognisers(b)
+    if not (ds or di) or not (bs or bi_):
+        ctx.missing("R17.9", "recognition of the Host line in determine_target / build_forward_request")
+        return
+    ok_d = bool(di) and not ds
+    ctx.ob("R17.9", "determine_target:Host-field-name-in-any-case", ok_d, (ds or di)[0].site, "the Host line is recognised case-insensitively" if ok_d else
+           "determine_target recognises the Host line by exact-case prefixes only (%s): a well-formed origin-form request that spells the field `HOST:` (or `hOst:`) has no destination and is refused, "
+           "while build_forward_request does recognise that line" % sorted({fmt(ctx.origins(d).of_operand(c.args[1]))[:12] for c in ds}))
+    ok_b = bool(bi_) and not bs
+    ctx.ob("R17.9", "build_forward_request:Host-field-name-in-any-case", ok_b, (bs or bi_)[0].site, "the Host line is recognised case-insensitively" if ok_b else
+           "build_forward_request recognises the Host line by exact-case prefixes only: a `HOST:` line is forwarded next to the normalised one (two Host headers)")
+
+
 def r8_body_once_and_forms(ctx):
     """(a) the body bytes that came with the header are forwarded in one place only: the rewritten request built by
     build_forward_request is the header block and nothing else; (b) the empty strings produced by splitting the CRLFCRLF terminator
@@ -374,6 +413,7 @@ def r8_body_once_and_forms(ctx):
 
 
 def run(ctx):
+    r9_host_field_name_any_case(ctx)
     r8_body_once_and_forms(ctx)
     from . import effects
     effects.check_property(ctx, "C17")    # R17.E: no operation on shared protocol state outside the reviewed table
